@@ -50,6 +50,11 @@ var c19TemplateSrc = []string{
 	`{{range .Messages}}[{{.Role}}|{{.Content}}]{{end}}`,
 }
 
+// real templates shipped in /repo/template, styles 4, 5, …: the oracle does not render these
+// (prompt and cost cross-check are reported as `?`); the cost vector still comes from the real
+// template, and L2 compares the prompt with the real template applied to the specified input.
+var c19RealTemplates = []string{"chatml", "llama3-instruct", "alpaca", "mistral-instruct", "gemma-instruct", "llama2-chat"}
+
 type c19Img struct {
 	src int
 	ok  bool
@@ -87,6 +92,17 @@ func c19NewEnv(t *testing.T) *c19Env {
 		tm, err := template.Parse(s)
 		if err != nil {
 			t.Fatal(err)
+		}
+		e.tmpl = append(e.tmpl, tm)
+	}
+	for _, name := range c19RealTemplates {
+		src, err := os.ReadFile("../template/" + name + ".gotmpl")
+		if err != nil {
+			t.Fatalf("real template %s: %v", name, err)
+		}
+		tm, err := template.Parse(strings.ReplaceAll(string(src), "\r\n", "\n"))
+		if err != nil {
+			t.Fatalf("real template %s: %v", name, err)
 		}
 		e.tmpl = append(e.tmpl, tm)
 	}
@@ -338,7 +354,7 @@ func (e *c19Env) identify(data []byte) (src int, pre bool, ok bool) {
 	return 0, false, false
 }
 
-func (e *c19Env) implLine(r *c19Real) string {
+func (e *c19Env) implLine(c *c19Case, r *c19Real) string {
 	if r.panicked != "" {
 		if strings.Contains(r.panicked, "slice bounds out of range [-1:]") {
 			return "panic:empty"
@@ -375,6 +391,9 @@ func (e *c19Env) implLine(r *c19Real) string {
 	for _, m := range r.msgs {
 		ms = append(ms, zzverif.Hex([]byte(m.Content)))
 	}
+	if c.style > c19StyleInPlace {
+		return fmt.Sprintf("ok q=%d imgs=%s msgs=%s prompt=? costs=?", r.calls, is, strings.Join(ms, ";"))
+	}
 	return fmt.Sprintf("ok q=%d imgs=%s msgs=%s prompt=%s costs=ok", r.calls, is, strings.Join(ms, ";"), zzverif.Hex([]byte(r.prompt)))
 }
 
@@ -386,6 +405,13 @@ func c19Rendered(style int, role string) bool {
 		return role == "u" || role == "a"
 	}
 	return true
+}
+
+func c19Clip(s string) string {
+	if len(s) > 120 {
+		return s[:120] + "…"
+	}
+	return s
 }
 
 func c19Marker(j int) string { return fmt.Sprintf("m%dq", j) }
@@ -435,6 +461,33 @@ func (e *c19Env) l2(out *zzverif.Out, c *c19Case, costs []int, r *c19Real, line 
 	if n == L-1 && L > 1 {
 		out.Count("kept_latest_only")
 	}
+	// (0) template-agnostic form of "latest kept, retained run, system messages kept": the prompt
+	// is the real template applied to [system messages before n] ++ msgs[n:] (contents as
+	// rewritten by the real call; the rewrite itself is checked by the image clauses below).
+	specRender := func(sysUpTo int) string {
+		var in []api.Message
+		for j := 0; j < sysUpTo; j++ {
+			if r.msgs[j].Role == "system" {
+				in = append(in, r.msgs[j])
+			}
+		}
+		in = append(in, r.msgs[n:]...)
+		var b bytes.Buffer
+		if err := e.tmpl[c.style].Execute(&b, template.Values{Messages: in}); err != nil {
+			return "<execute error: " + err.Error() + ">"
+		}
+		return b.String()
+	}
+	if want := specRender(n); want != r.prompt {
+		if n > 0 && c.msgs[n-1].role == "s" && specRender(n-1) == r.prompt {
+			out.L2("system-dropped", line, fmt.Sprintf("at-cut style=%d render: the prompt is the template applied without system message %d, which immediately precedes the retained run [%d:]", c.style, n-1, n))
+		} else {
+			out.L2("prompt-not-spec-render", line, fmt.Sprintf("style=%d: prompt %q differs from the template applied to system(<%d) ++ msgs[%d:] = %q", c.style, c19Clip(r.prompt), n, n, c19Clip(want)))
+		}
+	} else {
+		out.Count("l2_prompt_equals_spec_render")
+	}
+	generic := c.style > c19StyleInPlace
 	hasMarker := func(j int) bool { return strings.Contains(c.msgs[j].content, c19Marker(j)) }
 	literalTag := false
 	for _, m := range c.msgs {
@@ -519,13 +572,13 @@ func (e *c19Env) l2(out *zzverif.Out, c *c19Case, costs []int, r *c19Real, line 
 	}
 
 	// (a) latest kept
-	if hasMarker(L-1) && c19Rendered(c.style, c.msgs[L-1].role) && cnt(L-1) == 0 {
+	if !generic && hasMarker(L-1) && c19Rendered(c.style, c.msgs[L-1].role) && cnt(L-1) == 0 {
 		out.L2("latest-dropped", line, fmt.Sprintf("marker %s of the latest message not in the prompt", c19Marker(L-1)))
 	}
 	// (b) retained = msgs[n:], once each, in order; dropped non-system messages absent
 	last := -1
 	for j := 0; j < L; j++ {
-		if !hasMarker(j) || !c19Rendered(c.style, c.msgs[j].role) {
+		if generic || !hasMarker(j) || !c19Rendered(c.style, c.msgs[j].role) {
 			continue
 		}
 		k := cnt(j)
@@ -597,6 +650,9 @@ func (e *c19Env) l2(out *zzverif.Out, c *c19Case, costs []int, r *c19Real, line 
 		if got := strings.Count(r.msgs[w.msg].Content, tag); got != 1 {
 			out.L2("image-tag-msg", line, fmt.Sprintf("tag %s occurs %d times in the rewritten message %d", tag, got, w.msg))
 		}
+		if generic {
+			continue
+		}
 		if c19Rendered(c.style, c.msgs[w.msg].role) {
 			if got := strings.Count(r.prompt, tag); got != 1 {
 				out.L2("image-tag-prompt", line, fmt.Sprintf("style=%d%s: tag %s (message %d, role %s) occurs %d times in the prompt", c.style, why(w.msg), tag, w.msg, c.msgs[w.msg].role, got))
@@ -625,7 +681,10 @@ func c19Gen(r *zzverif.Rng) *c19Case {
 	default:
 		c.proj = 2
 	}
-	c.style = r.Intn(4)
+	c.style = r.Intn(4 + len(c19RealTemplates))
+	if c.style >= 4 && r.Chance(1, 2) {
+		c.style = r.Intn(4) // keep two thirds of the cases on the styles the oracle renders itself
+	}
 	c.mode = r.Intn(2)
 	L := r.Pick3(1, 4, 9)
 	if r.Chance(1, 200) {
@@ -750,7 +809,7 @@ func (e *c19Env) runCase(out *zzverif.Out, c *c19Case) {
 	costs := e.costs(c)
 	r := e.runReal(c)
 	line := c.opLine(e.fixed, costs)
-	out.Case(line, e.implLine(&r))
+	out.Case(line, e.implLine(c, &r))
 	out.Count("cases")
 	out.Count(fmt.Sprintf("style_%d", c.style))
 	out.Count(fmt.Sprintf("len_%d", min(len(c.msgs), 6)))
@@ -814,6 +873,26 @@ func TestVerifC19(t *testing.T) {
 	for i := range c19Fixed {
 		c := c19Fixed[i]
 		e.runCase(out, &c)
+	}
+	// regression corpus (raw case lines), run before the generated cases
+	if dir := os.Getenv("VERIF_CORPUS"); dir != "" {
+		ents, _ := os.ReadDir(dir)
+		for _, ent := range ents {
+			raw, err := os.ReadFile(dir + "/" + ent.Name())
+			if err != nil {
+				t.Fatal(err)
+			}
+			for _, ln := range strings.Split(string(raw), "\n") {
+				if strings.HasPrefix(ln, "chat ") {
+					c, err := c19ParseLine(ln)
+					if err != nil {
+						t.Fatalf("%s: %v", ent.Name(), err)
+					}
+					e.runCase(out, c)
+					out.Count("corpus_cases")
+				}
+			}
+		}
 	}
 	// NewRng(seed+1) is NewRng(seed) advanced by one draw, so consecutive seeds would replay the
 	// same cases shifted by one; forking once decorrelates them.
